@@ -102,6 +102,14 @@ def blockValid (R C : Nat) (rws cls : Nat → Nat → Nat) : Bool :=
 def blockGuard (R C : Nat) (rws cls : Nat → Nat → Nat) : G :=
   if blockValid R C rws cls then pass else stop
 
+/-- layout of the list of blocks (fix proposed for audit defect 19): at least one row of blocks and every row of blocks
+    holds the same non-zero number of blocks; `lens` = number of blocks per row -/
+abbrev blockLayoutMeaningful (lens : List Nat) : Prop := ∃ c, 0 < c ∧ lens ≠ [] ∧ ∀ l ∈ lens, l = c
+def blockLayoutGuard (lens : List Nat) : G :=
+  match lens with
+  | [] => stop
+  | l0 :: rest => if l0 = 0 then stop else if rest.all (fun l => l = l0) then pass else stop
+
 /-- `Delete_Row(row)`, `Return_Row(row)`: `if(row < 0 || row >= rows)` -/
 abbrev matRowMeaningful (rows i : Nat) : Prop := i < rows
 def matRowGuard (rows i : Nat) : G := if i ≥ rows then stop else pass
@@ -454,6 +462,9 @@ def gammaQGuard (x a : Rat) : G := if x < 0 ∨ a ≤ 0 then stop else pass
 
 abbrev invGammaPMeaningful (a : Rat) : Prop := 0 < a
 def invGammaPGuard (a : Rat) : G := if a ≤ 0 then stop else pass
+/-- with the probability argument: `if(a <= 0.0)` stop, then `if(p < 0.0 || p > 1.0)` stop -/
+abbrev invGammaPFullMeaningful (p a : Rat) : Prop := 0 < a ∧ 0 ≤ p ∧ p ≤ 1
+def invGammaPFullGuard (p a : Rat) : G := if a ≤ 0 then stop else if p < 0 ∨ p > 1 then stop else pass
 
 /-- `Round(N, digits)` after fix 710b478: `if(digits > 7)` stops first, then `if(N == 0) return 0;` -/
 abbrev roundMeaningful (digits : Nat) : Prop := digits ≤ 7
@@ -485,6 +496,25 @@ def poissonMeanGuard (mu : Rat) : G := if mu < 0 then stop else pass
 abbrev positiveMeaningful (a : Rat) : Prop := 0 < a
 def positiveGuard (a : Rat) : G := if a ≤ 0 then stop else pass
 
+/-- `PDF_Uniform`, `CDF_Uniform` (x_min, x_max): `if(x_min >= x_max)` -/
+abbrev intervalMeaningful (a b : Rat) : Prop := a < b
+def intervalGuard (a b : Rat) : G := if a ≥ b then stop else pass
+/-- `Sample_Uniform(PRNG, x_min, x_max)`: `if(x_max < x_min)` (a degenerate interval returns its point) -/
+abbrev weakIntervalMeaningful (a b : Rat) : Prop := a ≤ b
+def weakIntervalGuard (a b : Rat) : G := if b < a then stop else pass
+/-- `Quantile_Gauss(p, mu, sigma)`: `if(sigma < 0.0)`, then `Inv_Erf(2p - 1)` with its own guard -/
+abbrev quantileGaussMeaningful (p sigma : Rat) : Prop := 0 ≤ sigma ∧ invErfMeaningful (2 * p - 1)
+def quantileGaussGuard (p sigma : Rat) : G := if sigma < 0 then stop else invErfGuard (2 * p - 1)
+/-- `PDF_Gauss_2D`: `if(sigma.first <= 0.0 || sigma.second <= 0.0)` -/
+abbrev gauss2DMeaningful (sx sy : Rat) : Prop := 0 < sx ∧ 0 < sy
+def gauss2DGuard (sx sy : Rat) : G := if sx ≤ 0 ∨ sy ≤ 0 then stop else pass
+/-- `Log_Likelihood_Poisson`, `Likelihood_Poisson`: `if(N_prediction < 0.0 || expected_background < 0.0)` -/
+abbrev likelihoodPoissonMeaningful (pred bkg : Rat) : Prop := 0 ≤ pred ∧ 0 ≤ bkg
+def likelihoodPoissonGuard (pred bkg : Rat) : G := if pred < 0 ∨ bkg < 0 then stop else pass
+/-- `Upper_Incomplete_Gamma(x, s)`, `Lower_Incomplete_Gamma(x, s)`: `Gamma(s)` then `GammaQ(x, s)`, each with its guard -/
+abbrev incompleteGammaMeaningful (x s : Rat) : Prop := 0 ≤ x ∧ 0 < s
+def incompleteGammaGuard (x s : Rat) : G := if s ≤ 0 then stop else if x < 0 ∨ s ≤ 0 then stop else pass
+
 /-- `Log_Likelihood_Poisson_Binned(pred, obs, bkg)`: an empty background list is replaced by zeros -/
 abbrev binnedMeaningful (nPred nObs nBkg : Nat) : Prop := nObs = nPred ∧ (nBkg = 0 ∨ nBkg = nPred)
 def binnedGuard (nPred nObs nBkg : Nat) : G :=
@@ -509,6 +539,13 @@ def transposeReads (ls : List (List Rat)) : List (Option Rat) :=
   let m := (ls.headD []).length
   (List.range ls.length).flatMap fun i => (List.range m).map fun j => (ls[i]?).bind (fun r => r[j]?)
 
+/-- `Transpose_Lists(lists)` for EVERY outer list: the empty list of lists is returned unchanged -/
+abbrev transposeAllMeaningful (lens : List Nat) : Prop := ∀ a ∈ lens, ∀ b ∈ lens, a = b
+def transposeAllGuard (lens : List Nat) : G :=
+  match lens with
+  | [] => pass
+  | l0 :: rest => transposeGuard l0 rest
+
 /-- `Locate_Closest_Location(sorted_list, target)`: `std::is_sorted` -/
 abbrev closestMeaningful (l : List Rat) : Prop := l.Pairwise (· ≤ ·)
 def isSorted : List Rat → Bool
@@ -516,6 +553,9 @@ def isSorted : List Rat → Bool
   | [_] => true
   | a :: b :: r => decide (a ≤ b) && isSorted (b :: r)
 def closestGuard (l : List Rat) : G := if isSorted l then pass else stop
+/-- including the empty list (which has no closest location): `if(sorted_list.empty())` stop, then the order test -/
+abbrev closestAllMeaningful (l : List Rat) : Prop := l ≠ [] ∧ l.Pairwise (· ≤ ·)
+def closestAllGuard (l : List Rat) : G := if l.length = 0 then stop else closestGuard l
 /-- with `idx` the position `std::upper_bound` returns (`idx ≤ size`): `sorted_list[idx-1]`, `sorted_list[idx]`
     are read only when `0 < idx < size` -/
 def closestReads (l : List Rat) (idx : Nat) : List (Option Rat) :=
@@ -550,6 +590,11 @@ def importListGuard (fileExists : Bool) : G := if fileExists then pass else stop
 /-- `Import_Table(path, dimensions)`: the file must exist; with `rows ≥ 1` lines of `cols` numbers,
     `if(!dimensions.empty() && dimensions.size() != columns)` -/
 abbrev importTableMeaningful (fileExists : Bool) (cols nd : Nat) : Prop := fileExists = true ∧ (nd = 0 ∨ nd = cols)
+/-- with the number of lines: a file without lines is an empty table (returned before the column test) -/
+abbrev importTableRowsMeaningful (fileExists : Bool) (rows cols nd : Nat) : Prop :=
+  fileExists = true ∧ (rows = 0 ∨ nd = 0 ∨ nd = cols)
+def importTableRowsGuard (fileExists : Bool) (rows cols nd : Nat) : G :=
+  if fileExists then (if rows = 0 then pass else if nd ≠ 0 ∧ nd ≠ cols then stop else pass) else stop
 def importTableGuard (fileExists : Bool) (cols nd : Nat) : G :=
   if fileExists then (if nd ≠ 0 ∧ nd ≠ cols then stop else pass) else stop
 
